@@ -224,6 +224,55 @@ def resolve_fields(cur, ref):
     return out
 
 
+def resolve_variants(cur, ref):
+    """Renamed variants of an enum that is otherwise unchanged (same number of variants, same payload types in order):
+    [(adt path, variant index, new name, old name)].  Only names that no enum of the reference uses for a variant."""
+    used = {vn for sh in ref.values() for vn, _ in sh["variants"]}
+    out = []
+    for p, sh in ref.items():
+        c = cur.get(p)
+        if c is None or not sh["is_enum"] or not c["is_enum"] or len(c["variants"]) != len(sh["variants"]):
+            continue
+        if [[ft for _, ft in fs] for _, fs in c["variants"]] != [[ft for _, ft in fs] for _, fs in sh["variants"]]:
+            continue
+        for vi, ((o, _), (n, _)) in enumerate(zip(sh["variants"], c["variants"])):
+            if o != n:
+                if n in used or any(x[2] == n for x in out):
+                    return []
+                out.append((p, vi, n, o))
+    return out
+
+
+def rename_variants(j, renames):
+    """Structured rewrite: the enum's own variant list, aggregates of that enum, downcast projections by (index, fresh name)."""
+    by_adt = {(p, vi): o for p, vi, n, o in renames}
+    by_name = {(n, vi): o for p, vi, n, o in renames}
+    for a in j.get("adts", []):
+        for p, vi, n, o in renames:
+            if a["path"] == p and a["variants"][vi]["name"] == n:
+                a["variants"][vi]["name"] = o
+
+    def walk(x):
+        if isinstance(x, dict):
+            if x.get("k") == "adt" and (x.get("path"), x.get("vi")) in by_adt:
+                x["variant"] = by_adt[(x["path"], x["vi"])]
+            if x.get("k") == "downcast" and (x.get("variant"), x.get("i")) in by_name:
+                x["variant"] = by_name[(x["variant"], x["i"])]
+            for v in x.values():
+                walk(v)
+        elif isinstance(x, list):
+            for v in x:
+                walk(v)
+    walk(j["fns"])
+    for a in j.get("ast", []):
+        if isinstance(a, dict):
+            for v in a.get("variants", []) or []:
+                if isinstance(v, dict):
+                    for p, vi, n, o in renames:
+                        if v.get("name") == n and ((a.get("module") + "::" if a.get("module") else "") + a.get("name", "")) == p:
+                            v["name"] = o
+
+
 def rename_fields(j, renames):
     """Structured rewrite: the ADT's own field list and every field projection with that index and (fresh) name."""
     by_name = {(n, fi): o for _, _, fi, n, o in renames}
@@ -277,6 +326,11 @@ def load_crate(path, crate, ref_all=None):
             rename_fields(j, fr)
             text = json.dumps(j)
             alias.update({"field %s.%s" % (p, n): "%s.%s" % (p, o) for p, vi, fi, n, o in fr})
+        vr = resolve_variants(adt_shapes(j), ref_adts)
+        if vr:
+            rename_variants(j, vr)
+            text = json.dumps(j)
+            alias.update({"variant %s::%s" % (p, n): "%s::%s" % (p, o) for p, vi, n, o in vr})
     # 2. functions
     fa = resolve(fingerprint(j), ref)
     if fa:
